@@ -882,7 +882,6 @@ class World:
         load_obj_from_json(Sub, path) does).  Independent of the history's
         lens and of the model."""
         import importlib
-        self.opname = 'ckpt'
         try:
             with quiet(), warnings.catch_warnings():
                 warnings.simplefilter('ignore')
